@@ -1,24 +1,56 @@
-(* C12 - MMR successor proofs are complete, sound and total. *)
+(* C12 - MMR successor proofs are complete, sound and total.
+   The model of MmrSuccessorProof::verify is sp_verify_v1 (the code after the repair /repo dfe5f25: an old
+   accumulator whose peak count differs from count_ones(leaf_count) is rejected).  sp_verify_v0 is the code
+   before the repair and appears only in the HISTORICAL lemmas at the end. *)
 From Coq Require Import ZArith List Bool.
 From TF Require Import Word MmrIdxLocal Mmr MmrSpec MmrTerm MmrProofs.
 Import ListNotations.
 Open Scope Z_scope.
 
-(* `total` for the code as it is: REFUTED both ways.  An old accumulator with more peaks than
-   count_ones(leaf_count) makes verify panic (0.ilog2()); one with fewer peaks is accepted. *)
-Definition C12_total_v0_full : Prop :=
-  forall (D : Type) (H : D -> D -> D) (deq : D -> D -> bool) (dflt : D) (sp : list D) (old new : Z * list D),
-    zlen (snd old) < 2 ^ 32 -> zlen (snd new) < 2 ^ 32 ->
-    sp_verify_v0 D H deq dflt sp old new <> None /\
-    (zlen (snd old) <> count_ones (fst old) -> sp_verify_v0 D H deq dflt sp old new = Some false).
+(* sound (and exact): verification accepts if and only if every old peak hashes, with exactly the supplied
+   digests, into the new peak covering its leaf range, nothing is left over, and both accumulators have as
+   many peaks as their leaf counts have one-bits (succ_verify_spec in spec/MmrSpec.v). *)
+Theorem C12_verify_exact : forall (D : Type) (H : D -> D -> D) (deq : D -> D -> bool) (dflt : D)
+    (sp : list D) (old new : Z * list D),
+  0 <= fst old < 2 ^ 64 -> 0 <= fst new < 2 ^ 64 -> zlen (snd old) < 2 ^ 32 -> zlen (snd new) < 2 ^ 32 ->
+  sp_verify_v1 D H deq dflt sp old new = Some (succ_verify_spec D H deq dflt sp old new).
+Proof. exact sp_verify_v1_spec. Qed.
+Print Assumptions C12_verify_exact.
 
-Theorem C12_total_panic_refuted : exists (sp : list term) (old new : Z * list term),
+(* total: never a panic, for arbitrary peak-list lengths and all u64 counts; structurally inconsistent
+   accumulators are rejected *)
+Theorem C12_total : forall (D : Type) (H : D -> D -> D) (deq : D -> D -> bool) (dflt : D)
+    (sp : list D) (old new : Z * list D),
+  0 <= fst old < 2 ^ 64 -> 0 <= fst new < 2 ^ 64 -> zlen (snd old) < 2 ^ 32 -> zlen (snd new) < 2 ^ 32 ->
+  sp_verify_v1 D H deq dflt sp old new <> None /\
+  (zlen (snd old) <> count_ones (fst old) \/ zlen (snd new) <> count_ones (fst new) \/ fst new < fst old ->
+   sp_verify_v1 D H deq dflt sp old new = Some false).
+Proof. exact sp_verify_v1_total. Qed.
+Print Assumptions C12_total.
+
+Example C12_total_example :
+  sp_verify_v1 term Node term_eqb Dflt [] (1, [Atom 0; Atom 5]) (1, [Atom 0]) = Some false /\
+  sp_verify_v1 term Node term_eqb Dflt [] (1, []) (1, [Atom 0]) = Some false.
+Proof. exact sp_verify_v1_rejects_both. Qed.
+
+(* ---------------------------------------------------------------------------------------------------
+   HISTORICAL (code before /repo dfe5f25): `total` was refuted both ways.  An old accumulator with more
+   peaks than count_ones(leaf_count) made verify panic (0.ilog2()); one with fewer peaks was accepted.
+   On consistent old accumulators the two versions coincide. *)
+Theorem C12_historical_v0_panic_refuted : exists (sp : list term) (old new : Z * list term),
   sp_verify_v0 term Node term_eqb Dflt sp old new = None.
 Proof. exists [], (1, [Atom 0; Atom 5]), (1, [Atom 0]). exact sp_verify_v0_panics. Qed.
-Print Assumptions C12_total_panic_refuted.
+Print Assumptions C12_historical_v0_panic_refuted.
 
-Theorem C12_total_accepts_refuted : exists (sp : list term) (old new : Z * list term),
+Theorem C12_historical_v0_accepts_refuted : exists (sp : list term) (old new : Z * list term),
   zlen (snd old) <> count_ones (fst old) /\
   sp_verify_v0 term Node term_eqb Dflt sp old new = Some true.
 Proof. exists [], (1, []), (1, [Atom 0]). split; [discriminate | exact sp_verify_v0_accepts]. Qed.
-Print Assumptions C12_total_accepts_refuted.
+Print Assumptions C12_historical_v0_accepts_refuted.
+
+Theorem C12_historical_v0_agrees_when_consistent : forall (D : Type) (H : D -> D -> D) (deq : D -> D -> bool)
+    (dflt : D) (sp : list D) (old new : Z * list D),
+  zlen (snd old) < 2 ^ 32 -> zlen (snd old) = count_ones (fst old) ->
+  sp_verify_v0 D H deq dflt sp old new = sp_verify_v1 D H deq dflt sp old new.
+Proof. exact sp_verify_v0_consistent. Qed.
+Print Assumptions C12_historical_v0_agrees_when_consistent.
